@@ -136,7 +136,32 @@ pub fn run(a: &Args) {
             "text" => {
                 let codes = |t: &str| -> String { zlist(t.bytes().map(|b| b as i64)) };
                 let optw = |r: Result<Vec<Word>, essential_types::convert::FromHexError>| -> String { match r { Ok(v) => format!("(Some {})", zlist(v.iter().copied())), Err(_) => "None".into() } };
-                match rng.below(3) {
+                match rng.below(4) {
+                    3 => {
+                        fn rt<T: serde::Serialize + serde::de::DeserializeOwned + PartialEq>(v: &T) -> (bool, bool) {
+                            let j = serde_json::to_string(v).ok().and_then(|t| serde_json::from_str::<T>(&t).ok()).map(|b| &b == v).unwrap_or(false)
+                                && serde_json::to_value(v).ok().and_then(|t| serde_json::from_value::<T>(t).ok()).map(|b| &b == v).unwrap_or(false);
+                            let p = postcard::to_allocvec(v).ok().and_then(|b| postcard::from_bytes::<T>(&b).ok()).map(|b| &b == v).unwrap_or(false);
+                            (j, p)
+                        }
+                        let kind = rng.range(1, 9);
+                        let mut salt = [0u8; 32]; for b in salt.iter_mut() { *b = rng.next() as u8; }
+                        let mut sg = [0u8; 64]; for b in sg.iter_mut() { *b = rng.next() as u8; }
+                        let sig = essential_types::Signature(sg, rng.next() as u8);
+                        let contract = Contract { predicates: (0..rng.range(0, 3)).map(|_| rand_pred(&mut rng)).collect(), salt };
+                        let ((j, p), d) = match kind {
+                            1 => (rt(&rand_pred(&mut rng)), true),
+                            2 => (rt(&contract), true),
+                            3 => (rt(&essential_types::contract::SignedContract { contract, signature: sig }), true),
+                            4 => (rt(&Program((0..rng.range(0, 40)).map(|_| rng.next() as u8).collect())), true),
+                            5 => (rt(&Mutation { key: (0..rng.range(0, 3)).map(|_| rng.word()).collect(), value: (0..rng.range(0, 3)).map(|_| rng.word()).collect() }), true),
+                            6 => (rt(&rand_sol(&mut rng)), true),
+                            7 => { let s = rand_sol(&mut rng); (rt(&s.predicate_to_solve), format!("{}", s.predicate_to_solve).len() == 129) }
+                            8 => (rt(&sig), format!("{}", sig).parse::<essential_types::Signature>().map(|b| b == sig).unwrap_or(false)),
+                            _ => { let c = ContentAddress(salt); (rt(&c), format!("{}", c).parse::<ContentAddress>().map(|b| b == c).unwrap_or(false) && format!("{:x}", c).parse::<ContentAddress>().map(|b| b == c).unwrap_or(false)) }
+                        };
+                        push(&mut out, format!("TSerdeOther {} {} {} {}", kind, coq_bool(j), coq_bool(p), coq_bool(d)), "serde_other", json!(kind));
+                    }
                     0 => {
                         let ws: Vec<Word> = (0..rng.range(0, 5)).map(|_| rng.word()).collect();
                         let h = convert::hex_str_from_words(&ws);
@@ -189,15 +214,17 @@ pub fn run(a: &Args) {
                     1 => { let bs: Vec<u8> = (0..rng.range(0, 150)).map(|_| rng.next() as u8).collect(); push(&mut out, format!("TAddrProgram {} {}", blist(&bs), blist(&content_addr(&Program(bs.clone())).0)), "addr_program", json!(bs.len())); }
                     2 => { let s = rand_sol(&mut rng); let pc = essential_hash::serialize(&s); push(&mut out, format!("TAddrSolution {} {} {}", coq_sol(&s), blist(&pc), blist(&content_addr(&s).0)), "addr_solution", json!(pc.len())); }
                     3 => {
-                        let ps: Vec<Predicate> = (0..rng.range(0, 3)).map(|_| rand_pred(&mut rng)).collect();
-                        let mut salt = [0u8; 32]; for b in salt.iter_mut() { *b = rng.next() as u8; }
+                        let mut ps: Vec<Predicate> = (0..rng.range(0, 4)).map(|_| rand_pred(&mut rng)).collect();
+                        if ps.len() >= 2 && rng.chance(1, 5) { let d = ps[0].clone(); ps.push(d); }      // a repeated predicate
+                        let mut salt = [0u8; 32]; if rng.chance(3, 4) { for b in salt.iter_mut() { *b = rng.next() as u8; } }
                         let c = Contract { predicates: ps.clone(), salt };
                         let from = essential_hash::contract_addr::from_predicate_addrs(ps.iter().map(content_addr), &salt);
                         let pa: Vec<String> = perms(&ps).into_iter().map(|q| blist(&content_addr(&Contract { predicates: q, salt }).0)).collect();
                         push(&mut out, format!("TAddrContract {} {} {} {} [{}]", list_of(&ps, coq_pred), blist(&salt), blist(&content_addr(&c).0), blist(&from.0), pa.join("; ")), "addr_contract", json!(ps.len()));
                     }
                     _ => {
-                        let sols: Vec<Solution> = (0..rng.range(0, 3)).map(|_| rand_sol(&mut rng)).collect();
+                        let mut sols: Vec<Solution> = (0..rng.range(0, 4)).map(|_| rand_sol(&mut rng)).collect();
+                        if sols.len() >= 2 && rng.chance(1, 5) { let d = sols[0].clone(); sols.push(d); }     // two solutions with equal addresses
                         let set = SolutionSet { solutions: sols.clone() };
                         let from = essential_hash::solution_set_addr::from_solution_addrs(sols.iter().map(content_addr));
                         let pa: Vec<String> = perms(&sols).into_iter().map(|q| blist(&content_addr(&SolutionSet { solutions: q }).0)).collect();
@@ -218,15 +245,22 @@ pub fn run(a: &Args) {
                         // boundary grid: each dimension at / just below / just above its limit, one or two at a time
                         let nsol = *rng.pick(&[1usize, 1, 2, 3, 100, 101, 0]);
                         let mut sols: Vec<Solution> = (0..nsol).map(|i| Solution { predicate_to_solve: PredicateAddress { contract: ContentAddress([1; 32]), predicate: ContentAddress([i as u8; 32]) }, predicate_data: vec![], state_mutations: vec![] }).collect();
-                        if let Some(s) = sols.first_mut() {
-                            let slots = *rng.pick(&[0usize, 1, 100, 101]);
+                        if !sols.is_empty() {
+                            // the offending element sits at a random position: any solution, any slot, any mutation
+                            let which = if sols.len() >= 24 { *rng.pick(&[0usize, sols.len() - 1]) } else { rng.below(sols.len() as u64) as usize };
+                            let big_first = which == 0 || sols.len() < 24;
+                            let _ = big_first; let target = if sols.len() >= 24 { 0 } else { which }; let s = &mut sols[target];
+                            let slots = *rng.pick(&[0usize, 1, 3, 100, 101]);
                             let vlen = *rng.pick(&[0usize, 3, 10000, 10001]);
-                            s.predicate_data = vec![vec![7; vlen]; slots];
-                            match rng.below(6) {
+                            s.predicate_data = if slots >= 24 { vec![vec![7; vlen]; slots] } else {
+                                let at = rng.below(slots.max(1) as u64) as usize;
+                                (0..slots).map(|i| if i == at { vec![7; vlen] } else { vec![1, 2] }).collect() };
+                            match rng.below(7) {
                                 0 => { let total = *rng.pick(&[999usize, 1000, 1001]); s.state_mutations = (0..total).map(|i| Mutation { key: vec![i as Word], value: vec![1] }).collect(); }
-                                1 => { s.state_mutations = vec![Mutation { key: vec![3; *rng.pick(&[1000usize, 1001])], value: vec![1] }]; }
-                                2 => { s.state_mutations = vec![Mutation { key: vec![3], value: vec![5; *rng.pick(&[10000usize, 10001])] }]; }
+                                1 => { let at = rng.below(3) as usize; s.state_mutations = (0..3).map(|i| Mutation { key: if i == at { vec![3; *rng.pick(&[1000usize, 1001])] } else { vec![i as Word] }, value: vec![1] }).collect(); }
+                                2 => { let at = rng.below(3) as usize; s.state_mutations = (0..3).map(|i| Mutation { key: vec![i as Word], value: if i == at { vec![5; *rng.pick(&[10000usize, 10001])] } else { vec![] } }).collect(); }
                                 3 => { s.state_mutations = vec![Mutation { key: vec![3], value: vec![1] }, Mutation { key: vec![4], value: vec![] }, Mutation { key: vec![3], value: vec![2] }]; }
+                                4 => { s.state_mutations = vec![Mutation { key: vec![4], value: vec![1] }, Mutation { key: vec![3], value: vec![] }, Mutation { key: vec![5], value: vec![2] }, Mutation { key: vec![5], value: vec![2] }]; }
                                 _ => { s.state_mutations = vec![Mutation { key: vec![3], value: vec![1] }]; }
                             }
                         }
